@@ -52,7 +52,7 @@ PointSetPreconditioner<PointType>::compute(const PointSet<PointType> & points)
   // Compute mean and scales of point set
   pointSetMean_.setConstant(0);
   pointSetMin_.setConstant(std::numeric_limits<Scalar>::max());
-  pointSetMax_.setConstant(std::numeric_limits<Scalar>::min());
+  pointSetMax_.setConstant(std::numeric_limits<Scalar>::lowest());
   for (size_t n = 0, N = points.size(); n < N; ++n) {
     const PointType & point = points[n];
     pointSetMin_.array() = pointSetMin_.array().min(point.array());
